@@ -581,7 +581,7 @@ func accessLabels(h *History, into map[string]bool) {
 		if len(a.Path) == 0 {
 			where = "root"
 		}
-		if isHeldKind(a.Kind) || a.Base > 0 || subNodeVisit(a) {
+		if isHeldKind(a.Kind) || name == "lookup-through-sub-node" || name == "visit-of-sub-node" {
 			where = ""
 		}
 		lab := "access:" + name
